@@ -99,20 +99,34 @@ theorem fresh_scope_not_on_chain (st : St) : ∀ (f sc : Nat),
     (∀ s ∈ st.chain f sc, s < st.scopes.size) → st.scopes.size ∉ st.chain f sc := by
   intro f sc h hm; exact Nat.lt_irrefl _ (h _ hm)
 
-/-- function.Run allocates the frame as a NEW scope: its index is the current number of scopes, so it is
-    different from every scope of every earlier or enclosing call (fresh locals per call), and it starts empty
-    and parentless.  (Partial: the statement about the whole `callFrame` with defaults is only cross-checked by
-    the driver — `framesOk` on every final state.) -/
-theorem call_fresh_locals_partial (name : String) (st : St) :
-    runM (newScope name) st =
-      (.ok st.scopes.size, { st with scopes := st.scopes.push { name := name, parent := none, children := [], vars := [] } }) :=
-  newScope_run name none st
+/-- `runFunction` (inside the mutual block of the evaluator) builds its frame with `buildFrame`, evaluating
+    defaults in the CALLER's scope, and evaluates the body in that frame. -/
+theorem runFunction_uses_buildFrame (f callerSc id : Nat) (args : List Val) :
+    runFunction (f + 1) callerSc id args = (do
+      let fr ← (match (← get).funcs[id]? with
+        | some fr => pure fr
+        | none => throw (Sig.unsupported "dangling function id"))
+      let decl := fr.decl
+      let c0 ← child decl 0
+      let off := if c0.name == "identifier" then 1 else 0
+      let params := (← child decl off).children
+      let body ← child decl (off + 1)
+      let fvs ← buildFrame (fun d => eval f callerSc d) fr params args
+      callCore (withFreshIs (eval f fvs body))) := by
+  unfold runFunction; rfl
 
-/-- Once a frame `fr` is linked to the declaration scope `ds`, what the body sees is the frame, then the
-    chain of the DECLARATION scope — the caller's scope does not occur. -/
-theorem closure_sees_definition_scope_partial (st : St) (fr ds f : Nat) (h : (st.scope fr).parent = some ds) :
-    st.chain (f + 1) fr = fr :: st.chain f ds := by
-  simp [St.chain, h]
+/-- the names a frame may define: `this`, `super`, the parameter names -/
+def FrameNames (params : List (Option Ecal.Parse.Node)) (w : String) : Prop :=
+  w = bytesToString thisName ∨ w = bytesToString superName ∨
+  ∃ p nm, some p ∈ params ∧ nodeParamName p = some nm ∧ w = bytesToString nm
+
+/-- parameter names are identifiers without access path (what the parser produces) -/
+def PlainParams (params : List (Option Ecal.Parse.Node)) : Prop :=
+  ∀ p nm, some p ∈ params → nodeParamName p = some nm → PlainName nm
+
+theorem namesOk_of_plain (params : List (Option Ecal.Parse.Node)) (h : PlainParams params) :
+    NamesOk (FrameNames params) params :=
+  fun p nm hp hn => ⟨h p nm hp hn, Or.inr (Or.inr ⟨p, nm, hp, hn, rfl⟩)⟩
 
 /-- A call changes no existing scope while it builds its frame: `this`, `super` and the parameters are written
     into the fresh, still parentless root scope, so they SHADOW and never overwrite variables of the same
@@ -120,49 +134,85 @@ theorem closure_sees_definition_scope_partial (st : St) (fr ds f : Nat) (h : (st
     outcome, also when a default raises an error; hypothesis `hev`: evaluating a default expression itself
     leaves scope `t` and the unreachable new frame alone (what the defaults and later the body assign is
     covered by `assign_nearest_or_local`). -/
-theorem call_does_not_write_enclosing_frames (ev : Ecal.Parse.Node → M Val) (name : String) (ds : Nat)
-    (this super : Option Val) (params : List Param) (args : List Val) (st st' : St) (r : Except Sig Nat) (t : Nat)
-    (ht : t < st.scopes.size) (hpl : ∀ p ∈ params, PlainName p.name)
-    (hev : DefaultKeeps ev st.scopes.size t)
-    (h : runM (callFrame ev name ds this super params args) st = (r, st')) :
+theorem call_does_not_write_enclosing_frames (ev : Ecal.Parse.Node → M Val) (fr : FuncRec)
+    (params : List (Option Ecal.Parse.Node)) (args : List Val) (st st' : St) (r : Except Sig Nat) (t : Nat)
+    (ht : t < st.scopes.size) (hpl : PlainParams params) (hev : DefaultKeeps ev st.scopes.size t)
+    (h : runM (buildFrame ev fr params args) st = (r, st')) :
     st'.scope t = st.scope t :=
-  callFrame_keeps_existing ev name ds this super params args st st' r t ht hpl hev h
+  (buildFrame_spec ev fr params args st st' r t (FrameNames params) ht (Or.inl rfl) (Or.inr (Or.inl rfl))
+    (namesOk_of_plain params hpl) hev h).1
 
-/-- non-vacuity: a method frame (`this` bound, parameter `a`) built over the example state; constant defaults -/
-example (st' : St) (r : Except Sig Nat)
-    (h : runM (callFrame (fun _ => pure Val.null) "m" 1 (some (.map 0)) none [⟨[97], none⟩] [.bool true]) exSt = (r, st')) :
-    st'.scope 0 = exSt.scope 0 :=
-  call_does_not_write_enclosing_frames _ "m" 1 _ _ _ _ exSt st' r 0 (by decide)
-    (by intro p hp; simp at hp; subst hp; unfold PlainName; decide)
-    (by intro d s r s1 hr; simp only [runM_pure] at hr; injection hr with _ h2; subst h2; exact ⟨Nat.le_refl _, rfl, rfl⟩) h
+/-- Fresh locals per call: the frame of a successful `buildFrame` is a NEW scope (its index is the number of
+    scopes before the call, so it is no scope of any earlier or enclosing call), and it defines nothing but
+    `this`, `super` and the parameters — no local of an earlier call of the same function survives. -/
+theorem call_fresh_locals (ev : Ecal.Parse.Node → M Val) (fr : FuncRec)
+    (params : List (Option Ecal.Parse.Node)) (args : List Val) (st st' : St) (fvs t : Nat)
+    (ht : t < st.scopes.size) (hpl : PlainParams params) (hev : DefaultKeeps ev st.scopes.size t)
+    (h : runM (buildFrame ev fr params args) st = (.ok fvs, st')) :
+    fvs = st.scopes.size ∧ fvs ≠ t ∧ fvs < st'.scopes.size ∧ ∀ w, st'.defines fvs w = true → FrameNames params w := by
+  have := (buildFrame_spec ev fr params args st st' (.ok fvs) t (FrameNames params) ht (Or.inl rfl) (Or.inr (Or.inl rfl))
+    (namesOk_of_plain params hpl) hev h).2 fvs rfl
+  exact ⟨this.fresh, by rw [this.fresh]; exact (Nat.ne_of_lt ht).symm, this.inBounds, this.onlyAllowed⟩
 
-/-- Positional parameters: the argument at the parameter's position if there is one, else the default
-    (evaluated by `evalDefault`, which the evaluator instantiates with evaluation in the caller's scope), else
-    null; arguments beyond the parameters are never looked at. -/
-theorem args_missing_default_extra_ignored (ev : Ecal.Parse.Node → M Val) (p : Param) (i : Nat) (args extra : List Val) :
-    (∀ a, args[i]? = some a → paramValue ev p i args = pure a) ∧
-    (args.length ≤ i → ∀ d, p.dflt = some d → paramValue ev p i args = ev d) ∧
-    (args.length ≤ i → p.dflt = none → paramValue ev p i args = pure Val.null) ∧
-    (∀ (fvs : Nat) (ps : List Param), i + ps.length ≤ args.length →
-      bindParams ev fvs ps i (args ++ extra) = bindParams ev fvs ps i args) := by
-  refine ⟨?_, ?_, ?_, ?_⟩
-  · intro a h; simp [paramValue, h]
-  · intro h d hd
-    have : args[i]? = none := List.getElem?_eq_none h
-    simp [paramValue, this, hd]
-  · intro h hd
-    have : args[i]? = none := List.getElem?_eq_none h
-    simp [paramValue, this, hd]
-  · intro fvs ps
+/-- A closure sees its DEFINITION scope: the finished frame is linked to the declaration scope of the
+    function, so from the body the chain is the frame, then the chain of the declaration scope (read in the
+    final state) — the caller's scope is not on it unless the declaration scope's own chain contains it. -/
+theorem closure_sees_definition_scope (ev : Ecal.Parse.Node → M Val) (fr : FuncRec)
+    (params : List (Option Ecal.Parse.Node)) (args : List Val) (st st' : St) (fvs t f : Nat)
+    (ht : t < st.scopes.size) (hpl : PlainParams params) (hev : DefaultKeeps ev st.scopes.size t)
+    (h : runM (buildFrame ev fr params args) st = (.ok fvs, st')) :
+    (st'.scope fvs).parent = some fr.declScope ∧ st'.chain (f + 1) fvs = fvs :: st'.chain f fr.declScope := by
+  have := (buildFrame_spec ev fr params args st st' (.ok fvs) t (FrameNames params) ht (Or.inl rfl) (Or.inr (Or.inl rfl))
+    (namesOk_of_plain params hpl) hev h).2 fvs rfl
+  exact ⟨this.linked, by simp [St.chain, this.linked]⟩
+
+/-- non-vacuity: a method frame (`this` bound, no parameters) built over the example state -/
+example : ∃ fvs st', runM (buildFrame (fun _ => pure Val.null) ⟨"m", default, 1, some (.map 0), none⟩ [] []) exSt = (.ok fvs, st') :=
+  ⟨_, _, rfl⟩
+
+/-- Positional parameters, `bindParamNode` / `bindParamNodes`: a plain parameter gets the argument at its
+    position or null; a parameter with default gets the argument if there is one (the default is NOT
+    evaluated), else the value of the default expression (evaluated by `ev`: the caller's scope); arguments
+    beyond the parameters are never looked at. -/
+theorem args_missing_default_extra_ignored (ev : Ecal.Parse.Node → M Val) (fvs : Nat) (p : Ecal.Parse.Node) (i : Nat)
+    (args extra : List Val) :
+    (∀ tk, p.name = "identifier" → p.tok = some tk →
+      bindParamNode ev fvs p i args = setValue fvs tk.val (args.getD i Val.null)) ∧
+    (∀ c d tk rest, p.name = "preset" → p.children = some c :: some d :: rest → c.tok = some tk →
+      (i < args.length → bindParamNode ev fvs p i args = setValue fvs tk.val (args.getD i Val.null)) ∧
+      (args.length ≤ i → bindParamNode ev fvs p i args = (ev d >>= fun v => setValue fvs tk.val v))) ∧
+    (i < args.length → bindParamNode ev fvs p i (args ++ extra) = bindParamNode ev fvs p i args) ∧
+    (∀ (ps : List (Option Ecal.Parse.Node)), i + ps.length ≤ args.length →
+      bindParamNodes ev fvs ps i (args ++ extra) = bindParamNodes ev fvs ps i args) := by
+  have hstep : ∀ (q : Ecal.Parse.Node) (j : Nat), j < args.length →
+      bindParamNode ev fvs q j (args ++ extra) = bindParamNode ev fvs q j args := by
+    intro q j hj
+    have h1 : j < (args ++ extra).length := by simp; omega
+    have h2 : (args ++ extra).getD j Val.null = args.getD j Val.null := by
+      simp [List.getD, List.getElem?_append_left hj]
+    simp only [bindParamNode, h1, hj, h2]
+  refine ⟨?_, ?_, hstep p i, ?_⟩
+  · intro tk hn ht
+    simp [bindParamNode, hn, tokOf, ht]
+  · intro c d tk rest hn hc ht
+    have hne : (p.name == "identifier") = false := by simp [hn]
+    constructor
+    · intro hi
+      simp [bindParamNode, hn, hne, child, hc, tokOf, ht, hi]
+    · intro hi
+      have hi' : ¬ i < args.length := by omega
+      simp [bindParamNode, hn, hne, child, hc, tokOf, ht, hi']
+  · intro ps
     induction ps generalizing i with
     | nil => intro _; rfl
     | cons q qs ih =>
       intro h
       simp only [List.length_cons] at h
-      have hi : i < args.length := by omega
-      have e : (args ++ extra)[i]? = args[i]? := List.getElem?_append_left hi
-      simp only [bindParams, paramValue, e]
-      rw [ih (i + 1) (by omega)]
+      cases q with
+      | none => rfl
+      | some q =>
+        simp only [bindParamNodes]
+        rw [hstep q i (by omega), ih (i + 1) (by omega)]
 
 /-- Numbers, strings, booleans are values; a list or a map is a reference to a heap cell.  Writing the map
     cell `r` (through whatever variable or path led to it) is seen by every holder of `.map r`: after
